@@ -422,7 +422,6 @@ func (in *Interp) callBuiltin(fr *frame, b *ssa.Builtin, args []Value, c *ssa.Ca
 			panic(goPanic{msg: "close of closed channel", site: in.site()})
 		}
 		ch.closed = true
-		in.wake()
 		return nil
 	case "clear":
 		switch v := args[0].(type) {
